@@ -30,7 +30,9 @@ class Graph:
     def roots(self):
         targets = {b for _, b, _ in self.edges}
         r = [n for n in self.out if n not in targets]
-        return r
+        # TLC explores breadth-first from Init: when the initial state can be re-entered (it then has
+        # incoming edges) it is still the source of the first emitted edge
+        return r or [self.edges[0][0]]
 
     def bfs(self, root):
         """shortest edge-paths from root: node -> list of edge indexes"""
